@@ -512,6 +512,8 @@ type c44Session struct {
 	user  int
 	alive bool
 	why   string
+	// handle is the session as a request that looked it up earlier still holds it
+	handle *influxdb.Session
 }
 
 type c44User struct {
@@ -546,8 +548,8 @@ func c44Handler(t *testing.T, r *vkit.Run) {
 		mkSess := func(length time.Duration) *session.Service {
 			return session.NewService(session.NewStorage(sessStore), ts, ts, authSvc, session.WithSessionLength(length), session.WithTokenGenerator(&c44TokGen{rg: rg, n: hno * 1000}))
 		}
-		sessSvc := mkSess(time.Hour)        // expires an hour from now: far from "now"
-		expiredSvc := mkSess(-time.Hour)     // sessions that expired an hour ago
+		sessSvc := mkSess(time.Hour)     // expires an hour from now: far from "now"
+		expiredSvc := mkSess(-time.Hour) // sessions that expired an hour ago
 		down := &c44Downstream{}
 		h := ihttp.NewAuthenticationHandler(zap.NewNop(), kithttp.NewErrorHandler(zap.NewNop()))
 		h.AuthorizationService, h.SessionService, h.UserService = authSvc, sessSvc, ts
@@ -734,7 +736,8 @@ func c44Handler(t *testing.T, r *vkit.Run) {
 					hist = append(hist, fmt.Sprintf("CreateSession(u%d) → %v", ui, err))
 					continue
 				}
-				sess = append(sess, &c44Session{key: ss.Key, user: ui, alive: alive, why: why})
+				hcopy := *ss
+				sess = append(sess, &c44Session{key: ss.Key, user: ui, alive: alive, why: why, handle: &hcopy})
 				hist = append(hist, fmt.Sprintf("CreateSession(u%d,%s) → %s", ui, why, ss.Key))
 			case k < 17 && len(sess) > 0: // sign out
 				ss := vkit.Pick(rg, sess)
@@ -743,6 +746,16 @@ func c44Handler(t *testing.T, r *vkit.Run) {
 					ss.alive, ss.why = false, "signed_out"
 				}
 				hist = append(hist, fmt.Sprintf("ExpireSession(%s) → %s", ss.key, c30Err(err)))
+			case k < 18 && len(sess) > 0: // a request that looked the session up earlier renews it only now
+				ss := vkit.Pick(rg, sess)
+				if ss.why == "expired_an_hour_ago" {
+					continue // renewing a stored session past its expiry is not covered by the statement
+				}
+				err := sessSvc.RenewSession(ctx, ss.handle, time.Now().Add(3*time.Hour))
+				hist = append(hist, fmt.Sprintf("RenewSession(handle of %s looked up at sign-in, +3h) → %s", ss.key, c30Err(err)))
+				r.Event(fmt.Sprintf("renew_with_earlier_handle_alive=%v", ss.alive), 1)
+				// renewal must neither kill a live session nor bring back a signed-out one
+				serve(fmt.Sprintf("GET Cookie: session=%s", ss.key), func(q *http.Request) { session.SetCookieSession(ss.key, q) }, nil, ss, "session")
 			case k < 22 && len(toks) > 0: // request with a token, verbatim
 				tk := vkit.Pick(rg, toks)
 				scheme := vkit.Pick(rg, []string{"Token ", "Bearer ", "token ", "BEARER ", "tOkEn "})
@@ -750,7 +763,10 @@ func c44Handler(t *testing.T, r *vkit.Run) {
 			case k < 25 && len(sess) > 0: // request with a session cookie
 				ss := vkit.Pick(rg, sess)
 				if rg.Chance(1, 5) && len(toks) > 0 { // cookie plus a bogus Authorization header that names no scheme: the cookie decides
-					serve(fmt.Sprintf("GET Cookie: session=%s + Authorization: Basic xyz", ss.key), func(q *http.Request) { session.SetCookieSession(ss.key, q); q.Header.Set("Authorization", "Basic eHl6") }, nil, ss, "session")
+					serve(fmt.Sprintf("GET Cookie: session=%s + Authorization: Basic xyz", ss.key), func(q *http.Request) {
+						session.SetCookieSession(ss.key, q)
+						q.Header.Set("Authorization", "Basic eHl6")
+					}, nil, ss, "session")
 				} else {
 					serve(fmt.Sprintf("GET Cookie: session=%s", ss.key), func(q *http.Request) { session.SetCookieSession(ss.key, q) }, nil, ss, "session")
 				}
